@@ -124,7 +124,7 @@ def shard_container_scramble(desc, rec):
     rng = random.Random(desc["seed"] * 59 + 2)
     d = env.scratch_dir()
     for i in range(desc["n"]):
-        n = rng.choice([1, 2, 3, 4, 6, 14])
+        n = rng.choice([1, 2, 3, 4, 6, 14, 20, 40])
         nlive = rng.randint(0, min(n, 5))
         seed = rng.getrandbits(32)
         clean, m = C.make_initial(random.Random(seed), n, nlive, 0.0, False)
